@@ -560,7 +560,7 @@ def run_shard(shard, tier, seed, acc) -> None:
     elif kind == "str":
         lens = LEN_Q if tier == "quick" else LEN_T
         for sk in ("octet", "utf8", "time"):
-            for n in lens:
+            for n in lens + ([2**24 - 1, 2**24] if tier == "quick" and sk == "octet" else []):
                 if sk == "time" and n > 65537:
                     continue
                 _report(acc, case_str(a, sk, n, seed), ["str", sk, n])
